@@ -3463,6 +3463,22 @@ fn to_remote_tag_ref_update(
     }
 }
 
+/// Private ref-name helpers exposed to external model checkers.
+#[cfg(feature = "jj_vcs_jj_verif")]
+pub mod verif {
+    use super::*;
+
+    /// See the private `to_git_ref_name()`.
+    pub fn to_git_ref_name(kind: GitRefKind, symbol: RemoteRefSymbol<'_>) -> Option<GitRefNameBuf> {
+        super::to_git_ref_name(kind, symbol)
+    }
+
+    /// Whether the private `validate_remote_name()` accepts the name.
+    pub fn is_valid_remote_name(name: &RemoteName) -> bool {
+        super::validate_remote_name(name).is_ok()
+    }
+}
+
 #[cfg(test)]
 mod tests {
     use assert_matches::assert_matches;
